@@ -29,12 +29,15 @@ def specials():
     enc = vjson.enc
     return [
         [["g", G([["^p", 5]])], ["g", G([["a", 1]])]],
+        [["g", G([["a", 1]])], ["o", O([["b", 2]])], ["h", G([["c", 3]])]],
+        [["o", O([["g", G([["a", 1]])], ["h", G([["g", G([["a", 1]])]])]])]],
         [["g", G([["^p", 5]])], ["h", G([["a", 1]])], ["g", 3]],
         [["g", G([["a", 1], ["a", 2]])], ["g", G([["a", 1]])], ["g", G([])]],
         [["a", 1], ["g", G([["g", G([["a", 1]])]])], ["g", G([["x", 1]])]],
         [["s", enc(frozenset([1, 2, 3]))], ["s", enc(frozenset(["a", "b"]))], ["g", G([["k", 1]])]],
         [["q", enc(impl.Quantity(1.5, "m"))], ["g", G([["q", enc(impl.Quantity(2, "m"))]])]],
-        [["l", [1, [2, 3]]], ["g", G([["l", [1]]])], ["g", G([["l", [2]]])]],
+        [["l", [3, [2, 9, 1], 1]], ["g", G([["l", [2, 1]]])], ["g", G([["l", ["b", "a"]]])]],
+        [["s", enc(frozenset(["z", "a", "m"]))], ["l", ["z", "a", "m", "a"]], ["k", "  padded  "], ["g", G([["K", 1], ["k", 2]])]],
         [["g", G([["t", enc(dt.time(1, 2, tzinfo=dt.timezone.utc))]])], ["g", G([["n", None]])]],
         [["g", G([["o", O([["a", 1]])]])], ["g", G([["a", "x y"]])], ["g", G([["a", True]])]],
         [["a", "has a very long string " * 6], ["g", G([["b", "x"]])], ["g", G([["b", "y"]])]],
@@ -130,6 +133,19 @@ def check_case(case):
     # (add_quantity_cls) and used
     if case.get("interfere"):
         c16.interfere()
+        # ... and the same encoder instance is used for other modules in between, some of which it
+        # refuses; after each of them the module under test must still be written the same way
+        for mi, mk in enumerate(c16.modules()):
+            try:
+                enc.encode(mk())
+            except Exception:  # noqa: BLE001
+                pass
+            rk = call(enc, m)
+            if rk != r1:
+                out.append({"case": case, "diagnosis": "dump-not-repeatable-after-other-use:" + encname,
+                            "detail": "after the same encoder handled module #%d: first %r now %r"
+                                      % (mi, str(r1)[:160], str(rk)[:160])})
+                return out
     r2 = call(enc, m)
     s2 = snapshot(m)
     d = compare(s1, s2, allow)
